@@ -47,6 +47,7 @@ pub fn dispatch(a: &Args) -> i32 {
         "c14" => c14(a),
         "c15" => multi::c15(a),
         "c16" => c16::run(a),
+        "faultput" => c16::faultput(a),
         "c16-child" => return c16::child(a),
         "c17" => c17(a),
         "c18" => multi::c18(a),
@@ -222,6 +223,26 @@ pub fn regression_histories() -> Vec<History> {
         }
         ops.push(Op::Len);
         out.push(History { kt: "bytes".into(), cfg: Cfg::small(n), keys, ops, origin: format!("regression D2b (slot of a moved record taken over by a new key), table {n}") });
+    }
+    // Z: values that are all zero bytes written over non-zero ones in place, and the other way round, at sizes around the
+    // buffer chunk sizes
+    {
+        let keys: Vec<Vec<u8>> = (0..4u8).map(|i| vec![b'z', i]).collect();
+        let mut ops = Vec::new();
+        for (k, l) in [(0usize, 70_000u32), (1, 140_000), (2, 5000), (3, 1_100_000)] {
+            ops.push(Op::Put(k, ValSpec { len: l, seed: k as u32 + 1, kind: 0 }));
+            ops.push(Op::Put(k, ValSpec { len: l - 7, seed: 0, kind: 4 }));
+            ops.push(Op::Get(k));
+            ops.push(Op::Put(k, ValSpec { len: l - 9, seed: 9, kind: 0 }));
+            ops.push(Op::Get(k));
+            ops.push(Op::Put(k, ValSpec { len: l, seed: 0, kind: 4 }));
+            ops.push(Op::Get(k));
+        }
+        ops.push(Op::Reopen(Cfg::small(8)));
+        for k in 0..4 {
+            ops.push(Op::Get(k));
+        }
+        out.push(History { kt: "bytes".into(), cfg: Cfg::small(8), keys, ops, origin: "regression Z (all-zero values over non-zero ones in place)".into() });
     }
     // D4: large free slots reused for smaller large values
     {
